@@ -275,6 +275,32 @@ def cacheseq(prop, tier, seed):
         cov["traces_validated_against_impl"] += ares["evaluations"]
         cov["distinct_nontrivial"] += ares["distinct_nontrivial"]
         cov["rule"] += "; plus seeded histories of spec/CacheAuto.tla on a real auto-refresh cache (free-running and watcher-held pacings), polled until equal to a fresh cache"
+    if prop in ("C01", "C13"):
+        # "unreadable" files and directories (EACCES): the populations and histories of the permission universe,
+        # replayed by a harness process that has given up root so that file modes are enforced
+        pr = parallel(lambda: run_tlc("MCCacheSeq", "CacheSeq_perm0.cfg", deadlock=True, timeout=3000, workers=4),
+                      lambda: run_tlc("MCCacheSeq", "CacheSeq_permsim.cfg", deadlock=True, timeout=3000, workers=4,
+                                      simulate="num=%d" % (100 if tier == "quick" else 1500), depth=9, seed=seed))
+        for g in pr:
+            model_must_hold(g, "permission universe")
+        prows = pr[0].rows + pr[1].rows
+        if not prows:
+            raise ToolFailure("vacuous: no behaviour of the permission universe")
+        fp = scratch_file("cacheseq-perm.ndjson")
+        write_rows(prows, fp)
+        try:
+            pres, _ = run_harness("replay-cache", ["-cases", fp, "-seed", seed], env_extra={"VERIF_UID": "65534"} if os.geteuid() == 0 else None)
+        finally:
+            os.unlink(fp)
+        tool_errors(pres["mismatches"])
+        mine += tagged(pres["mismatches"], prop)
+        cov["unreadable_file_and_directory_rows"] = pres["evaluations"]
+        cov["states"] += pr[0].distinct
+        cov["transitions"] += pr[0].generated
+        for k in ("evaluations", "traces_validated_against_impl", "distinct_nontrivial", "steps_replayed"):
+            cov[k] += pres[{"steps_replayed": "steps"}.get(k, k if k != "traces_validated_against_impl" else "evaluations")]
+        cov["rule"] += ("; plus the permission universe (directories readable / mode 000 / missing, files valid / mode 000 / malformed; chmod as a "
+                        "history operation), every population exhaustively and seeded histories of 8 operations, replayed by a process running as uid 65534")
     if prop == "C16":
         # the naming half: generated transient names and the write/refresh/remove cycle under them
         nm = generic_replay(prop, tier, seed, [("SpecName", "SpecName_quick.cfg" if tier == "quick" else "SpecName_thorough.cfg", {})],
